@@ -75,6 +75,8 @@ class UnitResult:
         self.lines = []
         self.map_lines = []
         self.rlimit_fns = []
+        self.portfolio = None
+        self.unstable = 0
 
     # ---- helpers -------------------------------------------------------
     def src_of(self, line):
@@ -96,7 +98,7 @@ class UnitResult:
         return sorted(t for t in self.tags if t.split(".")[0] == pid)
 
 
-def run_unit(unit, seed=None, rlimit=None, extra_args=None, use_cache=True, repo=None):
+def run_unit(unit, seed=None, rlimit=None, extra_args=None, use_cache=True, repo=None, assembled=False):
     """extract + verify one unit; returns UnitResult"""
     ensure_vx()
     repo = repo or REPO
@@ -104,10 +106,11 @@ def run_unit(unit, seed=None, rlimit=None, extra_args=None, use_cache=True, repo
     os.makedirs(res.dir, exist_ok=True)
     spec = os.path.join(VERIF, "spec", unit + ".vs")
     t0 = time.time()
-    r = sh([VX, "--repo", repo, "--spec", spec, "--out", res.dir, "--prelude", os.path.join(VERIF, "prelude")])
-    if r.returncode != 0:
-        res.refused = (r.stderr.strip() or r.stdout.strip() or "vx failed")[-2000:]
-        return res
+    if not assembled:
+        r = sh([VX, "--repo", repo, "--spec", spec, "--out", res.dir, "--prelude", os.path.join(VERIF, "prelude")])
+        if r.returncode != 0:
+            res.refused = (r.stderr.strip() or r.stdout.strip() or "vx failed")[-2000:]
+            return res
     unit_rs = os.path.join(res.dir, "unit.rs")
     text = open(unit_rs).read()
     res.lines = text.split("\n")
@@ -145,8 +148,9 @@ def run_unit(unit, seed=None, rlimit=None, extra_args=None, use_cache=True, repo
         rr = sh(args, cwd=res.dir)
         out, err, rc = rr.stdout, rr.stderr, rr.returncode
         json.dump({"out": out, "err": err, "rc": rc, "key": key}, open(cpath, "w"))
-    open(os.path.join(res.dir, "verus.out.json"), "w").write(out)
-    open(os.path.join(res.dir, "verus.err.jsonl"), "w").write(err)
+    sfx = "" if seed is None else ".seed%d" % seed
+    open(os.path.join(res.dir, "verus.out%s.json" % sfx), "w").write(out)
+    open(os.path.join(res.dir, "verus.err%s.jsonl" % sfx), "w").write(err)
     res.wall = time.time() - t0
 
     # ---- parse stdout json ----
@@ -228,6 +232,33 @@ def run_unit(unit, seed=None, rlimit=None, extra_args=None, use_cache=True, repo
         # where the failing *site* is (return point, call site, loop): any mapped source line
         d["src_sites"] = sorted(set(filter(None, (res.src_of(ln) for ln in unit_lines))))
         d["callee_external"] = [s[3] for s in d["spans"] if not s[3].endswith("unit.rs")]
+    return res
+
+
+def run_unit_portfolio(unit, seeds=(11, 23, 37), **kw):
+    """run_unit, and when some obligation fails, re-verify the same assembled unit under other solver
+    seeds: an obligation discharged under *any* seed is proved (a proof is a proof), so only the
+    failures common to all runs are kept.  Guards the deciding run against Z3 instability."""
+    res = run_unit(unit, **kw)
+    if res.refused or res.compile_error or not res.diags:
+        return res
+    res.portfolio = []
+    from concurrent.futures import ThreadPoolExecutor
+    with ThreadPoolExecutor(max_workers=len(seeds)) as ex:
+        others = list(ex.map(lambda sd: run_unit(unit, seed=sd, assembled=True, **kw), seeds))
+    def key(d):
+        return (d["kind"] == "rlimit", tuple(sorted(d.get("unit_lines") or [])), d["message"] if not d.get("unit_lines") else "")
+    keep = res.diags
+    for o in others:
+        if o.refused or o.compile_error:
+            continue
+        ok = set(key(d) for d in o.diags)
+        # an rlimit in one run does not refute a proof found in another
+        keep = [d for d in keep if key(d) in ok or (d["kind"] != "rlimit" and any(x["kind"] == "rlimit" and x.get("fn") == d.get("fn") for x in o.diags))]
+        res.portfolio.append({"seed": o.cmd.split("random_seed=")[-1].split()[0] if "random_seed=" in o.cmd else "?", "errors": o.errors, "smt_ms": o.smt_ms})
+    dropped = len(res.diags) - len(keep)
+    res.unstable = dropped
+    res.diags = keep
     return res
 
 
